@@ -93,7 +93,7 @@ def parse_tlc_log(text):
 
 
 def tlc_gen_replay(tag, module, consts, invariants, workers=None, timeout_s=1800, also_unopt=False,
-                   replay_workers=None, init="GInit", nxt="GNext", facts=False):
+                   replay_workers=None, init="GInit", nxt="GNext", facts=False, trace=False):
     """Run TLC on `module` with a generated cfg; pipe stdout into `vharness replay`.
     Returns (tlcinfo, stats, violations)."""
     d = os.path.join(WORK, tag)
@@ -114,7 +114,14 @@ def tlc_gen_replay(tag, module, consts, invariants, workers=None, timeout_s=1800
         rp_cmd += ["--facts", os.path.join(d, "facts.ndjson")]
     t0 = time.time()
     tlc = subprocess.Popen(tlc_cmd, cwd=SPEC, stdout=subprocess.PIPE, stderr=subprocess.STDOUT, env=env)
-    rp = subprocess.Popen(rp_cmd, cwd=d, stdin=tlc.stdout, stdout=subprocess.PIPE, stderr=subprocess.STDOUT, text=True)
+    rp_env = dict(os.environ)
+    if trace:
+        # the replayed calls are also logged by the tracer hook and validated by ApiTrace.tla afterwards: trace validation
+        # is where the two-model acceptance of the IterAmbig zone lives, the replayer compares nothing there
+        os.makedirs(os.path.join(d, "trace"))
+        rp_env["REGEXML_VERIF_TRACE"] = os.path.join(d, "trace")
+    rp = subprocess.Popen(rp_cmd, cwd=d, stdin=tlc.stdout, stdout=subprocess.PIPE, stderr=subprocess.STDOUT, text=True,
+                          env=rp_env)
     tlc.stdout.close()
     out, _ = rp.communicate()
     tlc.wait()
@@ -137,6 +144,13 @@ def tlc_gen_replay(tag, module, consts, invariants, workers=None, timeout_s=1800
         stats["facts_events"] = fst["lines"]
         stats["facts_patterns_checked"] = fst["compared"]
         info["distinct"] += fst["states"]
+    if trace:
+        tt, tv = validate_traces(tag + "_tr", d)
+        viols += tv
+        stats["trace_events"] = tt["lines"]
+        stats["trace_compared"] = tt["compared"]
+        stats["trace_dual_or_weak"] = tt["weak"]
+        info["distinct"] += tt["states"]
     log("stage %s: %d states, %d behaviours, %d cases, mismatches %s, %.1fs" % (
         tag, info["distinct"], stats["behaviours"], stats["cases"], stats["mismatches"], info["wall_s"]))
     return info, stats, viols
